@@ -129,6 +129,12 @@ class BaseSession(SessionInterface, Generic[MessageT]):
     async def create_mailbox(self, name: str,
                              selected: SelectedMailbox | None = None) \
             -> tuple[ObjectId, SelectedMailbox | None]:
+        delimiter = self.mailbox_set.delimiter
+        if name.endswith(delimiter) and name != delimiter:
+            # the name created is without the trailing hierarchy delimiter
+            name = name[:-len(delimiter)]
+            if name.isascii() and name.upper() == 'INBOX':
+                raise MailboxConflict('INBOX')
         try:
             mailbox_id = await self.mailbox_set.add_mailbox(name)
         except ValueError as exc:
